@@ -39,9 +39,39 @@ Theorem C13_hyperpower p (X : qmat) :
   meq n n (qmsub qmid (qmm m (hyperpower C retab m n p A X) A))
           (snd (hp_sum C retab n (retab n n (qmsub qmid (qmm m X A))) p)).
 Proof. exact (hyperpower_residual C retab retab_ok m n A p X). Qed.
+(* ---- the iterates stay in the row space of A^H, and a left inverse in that row space is THE pseudoinverse ---- *)
+Definition rowspace (X : qmat) : Prop := exists Z : qmat, meq n m X (qmm n Z (qherm A)).
+(* the start alpha A^H *)
+Theorem C13_start_in_rowspace (W : qmat) : rowspace (qmm n W (qherm A)).
+Proof. exists W. reflexivity. Qed.
+(* sketch-and-project step with a micro-solver answer of the form Zk = Wk A^H (for Y = A Omega: Y^+ = (Y^H Y)^-1 Omega^H A^H) *)
+Theorem C13_projection_step_keeps_rowspace r (X Y Omega Zk Wk : qmat) :
+  rowspace X -> meq r m Zk (qmm n Wk (qherm A)) -> rowspace (rsp_step C m n r X Y Omega Zk).
+Proof.
+  intros [Z HZ] HW. exists (qmadd Z (qmm r (qmsub Omega (qmm m X Y)) Wk)). unfold rsp_step.
+  rewrite (qmm_add_l C n n m Z (qmm r (qmsub Omega (qmm m X Y)) Wk) (qherm A)).
+  rewrite (qmm_assoc C n r n m (qmsub Omega (qmm m X Y)) Wk (qherm A)), <- HW, <- HZ. reflexivity.
+Qed.
+(* any left multiplication (the hyper-power step X' = (I + F + ... + F^(p-1)) X) *)
+Theorem C13_left_multiplication_keeps_rowspace (S X : qmat) : rowspace X -> rowspace (qmm n S X).
+Proof. intros [Z HZ]. exists (qmm n S Z). rewrite HZ. symmetry. apply (qmm_assoc C n n n m S Z (qherm A)). Qed.
+(* with G a right inverse of the Gram matrix A^H A (A of full column rank): X A = I and X in the row space force X = G A^H = A^+ *)
+Theorem C13_left_inverse_in_rowspace_is_pseudoinverse (X G : qmat) :
+  meq n n (qmm n (qmm m (qherm A) A) G) qmid -> rowspace X -> meq n n (qmm m X A) qmid -> meq n m X (qmm n G (qherm A)).
+Proof.
+  intros HG [Z HZ] HX.
+  assert (E : meq n n Z G).
+  { rewrite <- (qmm_id_r C n n Z), <- HG.
+    rewrite <- (qmm_assoc C n n n n Z (qmm m (qherm A) A) G).
+    rewrite <- (qmm_assoc C n n m n Z (qherm A) A), <- HZ, HX. apply (qmm_id_l C n n G). }
+  rewrite HZ, E. reflexivity.
+Qed.
 End P.
 
 Print Assumptions C13_cgne_residual_recurrence.
 Print Assumptions C13_cgne_flag_sound.
 Print Assumptions C13_projection_step.
 Print Assumptions C13_hyperpower.
+
+Print Assumptions C13_projection_step_keeps_rowspace.
+Print Assumptions C13_left_inverse_in_rowspace_is_pseudoinverse.
